@@ -6,6 +6,9 @@
 //!   arabic fvs                        -> code points whose action is overwritten by the Mongolian FVS copy
 //!   arabic tgcs                       -> general categories (0..=29) that resolve an X table entry to T
 //!   arabic jt <cp>...                 -> raw:resolved:gc per code point
+//!   arabic script <cp>...             -> iso:own per code point (decimal big-endian ISO 15924 tags): the Unicode Script
+//!                                        property by name from the unicode-script crate, and the crate's own char -> Script
+//!                                        mapping (what guess_segment_properties uses; Zzzz = unknown)
 //!   arabic resolve <cp> <gc>          -> get_joining_type(cp, gc)
 //!   arabic ctx <cp>* / <cp>*          -> stored pre context / stored post context (array order)
 //!   arabic join <cp:gc>* / <cp:gc>* / <cp:gc>*       (pre / text / post, logical order)
@@ -134,6 +137,15 @@ pub fn handle(toks: &[&str], _st: &mut State) -> Option<String> {
                 let c = char::from_u32(t.parse().ok()?)?;
                 let (raw, res, gc) = hk::joining_type_of(c);
                 out.push(format!("{}:{}:{}", raw, res, gc));
+            }
+            Some(out.join(" "))
+        }
+        "script" => {
+            let mut out = vec![];
+            for t in &toks[2..] {
+                let c = char::from_u32(t.parse().ok()?)?;
+                let (iso, own) = rustybuzz::verif::unicode::script_tags(c);
+                out.push(format!("{}:{}", iso, own));
             }
             Some(out.join(" "))
         }
